@@ -275,6 +275,62 @@ class SDeque:
     def reverse(self):
         self.items.reverse()
 
+    # the rest of the deque interface (an implementation may use any of it)
+    def extend(self, iterable):
+        for x in list(iterable):
+            self.append(x)
+
+    def extendleft(self, iterable):
+        for x in list(iterable):
+            self.appendleft(x)
+
+    def insert(self, i, x):
+        if self._full():
+            raise IndexError('deque already at its maximum size')
+        self.items.insert(_conc(i), x)
+        self.high_water = max(self.high_water, len(self.items))
+
+    def remove(self, x):
+        for i, y in enumerate(self.items):
+            r = key_eq(x, y)
+            if r is True or (r is not False and bool(r)):
+                del self.items[i]
+                return
+        raise ValueError('deque.remove(x): x not in deque')
+
+    def rotate(self, n=1):
+        n = _conc(n)
+        if self.items:
+            n %= len(self.items)
+            self.items = self.items[-n:] + self.items[:-n] if n else self.items
+
+    def count(self, x):
+        return sum(1 for y in self.items if (lambda r: r is True or (r is not False and bool(r)))(key_eq(x, y)))
+
+    def index(self, x, *a):
+        for i, y in enumerate(self.items):
+            r = key_eq(x, y)
+            if r is True or (r is not False and bool(r)):
+                return i
+        raise ValueError('not in deque')
+
+    def copy(self):
+        return SDeque(self.items, self.maxlen)
+
+    __copy__ = copy
+
+    def __delitem__(self, i):
+        i = _conc(i)
+        if not -len(self.items) <= i < len(self.items):
+            raise IndexError('deque index out of range')
+        del self.items[i]
+
+    def __contains__(self, x):
+        return self.count(x) > 0
+
+    def __reversed__(self):
+        return iter(list(reversed(self.items)))
+
     def __bool__(self):
         return len(self.items) > 0
 
